@@ -6,7 +6,7 @@
     x |-> Derivative(x,1). *)
 From Coq Require Import Reals ZArith List.
 From Coquelicot Require Import Coquelicot.
-From LP Require Import Num NumR C01_Model C01_Proofs C01_Proofs_Table C01_Proofs_Global C01_Proofs_Accept.
+From LP Require Import Num NumR C01_Model C01_Proofs C01_Proofs_Table C01_Proofs_Global C01_Proofs_Accept C01_Proofs_Session.
 Import ListNotations.
 Local Open Scope R_scope.
 
@@ -375,3 +375,45 @@ Theorem C01_constructors2_sound :
          interpolate2 ROps o (sc xd x) (sc yd y) = Ok (sc fd f)).
 Proof. exact (conj construct2_inv table_constructor_sound). Qed.
 Print Assumptions C01_constructors2_sound.
+
+(** Sessions (several objects alive, tables assigned to objects that already answered requests, objects constructed in the storage
+    of destroyed ones, copies): "the reported derivatives are the derivatives of the returned curve" and every other clause speak
+    about the table the object holds NOW.  In the model of a session (slots holding objects; [CPut k r]: slot k = constructor call,
+    [CCopy d s]: slot d = slot s, [CAsk k q]: request q to slot k) the last answer of a session that runs to its end is the answer
+    of the object put into that slot, computed on its own -- whatever [pre] was requested or stored before (in the same slot too)
+    and whatever [mid] is requested from any slot or stored into OTHER slots in between.  For every object / request / answer
+    type and answer function: both classes, every arithmetic, the doubles included.  [writes k c]: c stores into slot k.
+    Non-vacuity: [session_example]. *)
+Theorem C01_session_answer_depends_on_current_table :
+  forall (Obj Q Out : Type) (answer : Obj -> Q -> res Out) (st : list (option Obj)) pre k o mid q outs,
+  (forall c, In c mid -> ~ writes k c) ->
+  session_run answer st (pre ++ CPut k (Ok o) :: mid ++ [CAsk k q]) = Ok outs ->
+  exists front v, outs = front ++ [v] /\ answer o q = Ok v.
+Proof. exact (@session_last_answer). Qed.
+Print Assumptions C01_session_answer_depends_on_current_table.
+
+(** the same after a copy assignment: slot dst answers as the object that slot src held when it was copied *)
+Theorem C01_session_copy_answers_as_source :
+  forall (Obj Q Out : Type) (answer : Obj -> Q -> res Out) (st st0 : list (option Obj)) pre outs0 dst src o mid q outs,
+  exec answer st pre = Ok (st0, outs0) -> get_slot st0 src = Ok o ->
+  (forall c, In c mid -> ~ writes dst c) ->
+  session_run answer st (pre ++ CCopy dst src :: mid ++ [CAsk dst q]) = Ok outs ->
+  exists front v, outs = front ++ [v] /\ answer o q = Ok v.
+Proof. exact (@session_copy_answer). Qed.
+Print Assumptions C01_session_copy_answers_as_source.
+
+(** 1-D instance, every arithmetic: after F = Interpolation(xs, ys, x_dim, f_dim) the answers to Interpolate / Derivative / Locate
+    are those of the constructed object, whatever F and the other objects were asked before *)
+Theorem C01_session_1d_answers_of_assigned_table :
+  forall {T} (Ops : NumOps T) st pre k xs ys xd fd o mid q outs,
+  construct Ops xs ys xd fd = Ok o ->
+  (forall c, In c mid -> ~ writes k c) ->
+  session_run (answer_1d Ops) st (pre ++ CPut k (construct Ops xs ys xd fd) :: mid ++ [CAsk k q]) = Ok outs ->
+  exists front v, outs = front ++ [v] /\
+    match q with
+    | QI x => rbind (interpolate Ops o x) (fun v => Ok (AV v))
+    | QD kk x => rbind (derivative Ops o x kk) (fun v => Ok (AV v))
+    | QL x => rbind (locate Ops o x) (fun j => Ok (AJ j))
+    end = Ok v.
+Proof. exact (@session_1d_last_answer). Qed.
+Print Assumptions C01_session_1d_answers_of_assigned_table.
